@@ -2,7 +2,7 @@
 META = {
     "level": "exploration",
     "technique": "history + ledger model on the real StorageServer.allocate_buckets / BucketWriter against a simulated disk placed behind os.statvfs as seen by allmydata.util.fileutil",
-    "text": "Drives the real StorageServer (allocate_buckets, BucketWriter.write/close/abort, 30-minute timeout under the virtual clock) directly and through the Foolscap front end (FoolscapStorageServer.remote_allocate_buckets with a broker-like canary, FoolscapBucketWriter.remote_write/close/abort, connection loss with several shares of one request still open) against a simulated disk of random capacity with random reserved_space, root-only reserve and read-only flag, in three disk-statistics models crossed with read-only yes/no and reserved_space 0/non-zero (statistics available; no disk-statistics API = os.statvfs raises AttributeError so get_available_space is None; the OS call fails with OSError), servers optionally started on a directory that already holds shares; fileutil.get_disk_stats/get_available_space stay the real code (only os.statvfs is substituted; used bytes = bytes really materialised below the storage dir, sparse incoming files counted by what was written). At every allocate_buckets the oracle computes, independently, free space before the call, and demands: sum of sizes of newly granted writers + sizes of uploads still open + reserved_space <= free space (none granted when that budget is <= 0); a read-only server must grant nothing in every disk model; writable servers that cannot learn their free space are generated but not judged (the statement gives no bound); after every operation allocated_size() must equal the sum of sizes of the open uploads of the ledger model.",
+    "text": "Drives the real StorageServer (allocate_buckets, BucketWriter.write/close/abort, 30-minute timeout under the virtual clock) directly and through the Foolscap front end (FoolscapStorageServer.remote_allocate_buckets with a broker-like canary, FoolscapBucketWriter.remote_write/close/abort, connection loss with several shares of one request still open) against a simulated disk of random capacity with random reserved_space, root-only reserve and read-only flag, in three disk-statistics models crossed with read-only yes/no and reserved_space 0/non-zero (statistics available; no disk-statistics API = os.statvfs raises AttributeError so get_available_space is None; the OS call fails with OSError), servers optionally started on a directory that already holds shares; storage indexes that share the 2-character incoming/ prefix directory (close/abort interleavings); in a fifth of the statistics cases reserved_space comes from a tahoe.cfg string ('1.5kB', '0.5 KiB', ...) through the real _Client.get_anonymous_storage_server and the oracle uses the documented meaning of that string; fileutil.get_disk_stats/get_available_space stay the real code (only os.statvfs is substituted; used bytes = bytes really materialised below the storage dir, sparse incoming files counted by what was written). At every allocate_buckets the oracle computes, independently, free space before the call, and demands: sum of sizes of newly granted writers + sizes of uploads still open + reserved_space <= free space (none granted when that budget is <= 0); a read-only server must grant nothing in every disk model; writable servers that cannot learn their free space are generated but not judged (the statement gives no bound); after every operation allocated_size() must equal the sum of sizes of the open uploads of the ledger model.",
     "note": "Trusts the SimDisk accounting (st_size of files, written bytes for sparse incoming files) and the ledger model; per-share container overhead (12-byte header, 72-byte leases) is not part of a share's 'reserved size' in the statement and is not charged by the oracle. Upload timeout assumed to be 30 min of inactivity, judged only >1 s away from it.",
 }
 LEVEL = "exploration"
@@ -76,11 +76,17 @@ def run(ck):
         readonly = rng.random() < (.12 if mode == "stats" else .5)
         if mode != "stats":
             reserved = rng.choice([0, reserved or 1000])
+        # reserved_space as the operator writes it in tahoe.cfg ([storage]reserved_space = "1.5kB"), turned into the
+        # server's setting by the real client code; the oracle keeps using the documented meaning of the string
+        cfg = None
+        if mode == "stats" and rng.random() < .2:
+            cfg = rng.choice(CFG_SIZES)
+            reserved = documented_size(cfg)
         # Case() builds a writable server on a normal simulated disk: it only serves to put shares on disk
         # before the server under test (possibly read-only, possibly without disk statistics) is started
         case = S.Case(rng, disk_total=total, root_reserve=root_reserve)
         try:
-            _one_case(ck, rng, case, total, root_reserve, reserved, readonly, mode)
+            _one_case(ck, rng, case, total, root_reserve, reserved, readonly, mode, cfg)
         except Exception as e:
             import traceback
             tb = traceback.extract_tb(e.__traceback__)[-1]
@@ -89,21 +95,75 @@ def run(ck):
         finally:
             case.close()
     for m in ("allocation-within-budget", "ledger", "disconnect-releases", "readonly-grants-none", "readonly-grants-none:stats",
-              "readonly-grants-none:noapi", "readonly-grants-none:oserror"):
+              "readonly-grants-none:noapi", "readonly-grants-none:oserror",
+              "configured-reserve-is-documented-value"):
         ck.require_monitor(m)
     for r in ("granted", "refused-no-space", "partially-granted", "budget-exactly-met", "budget-exceeded-by-1-refused",
               "open-uploads-counted", "reserved-space-binding", "released-by-close", "released-by-abort",
               "released-by-timeout", "readonly-server", "multi-share-request", "regrant-after-release",
               "readonly-holding-shares", "readonly-reserved-0", "readonly-reserved-nonzero", "writable-noapi-grants",
               "writable-oserror", "foolscap-front-end", "released-by-disconnect",
-              "disconnect-with-several-open-shares-of-one-request"):
+              "disconnect-with-several-open-shares-of-one-request",
+              "close-while-other-index-in-same-incoming-prefix", "abort-while-other-index-in-same-incoming-prefix",
+              "reserved-space-from-tahoe-cfg", "reserved-space-from-tahoe-cfg-decimal"):
         ck.require_reach(r)
     ck.exhaustive = False
 
 
-def _one_case(ck, rng, case, total, root_reserve, reserved, readonly, mode):
+CFG_SIZES = ["1.5kB", "0.5 KiB", "1.50 kB", "1.5K", "2.25KiB", "0.001MB", "1500", "2K", "1KiB", "1.5 kb", "0.75kiB",
+             "12.5 kB", "1.024kB"]
+
+
+def documented_size(text):
+    """docs/configuration.rst: a number, an optional case-insensitive scale suffix K M G T P E, an optional "i"
+    (powers of 1024 instead of 1000), optionally followed by "B".  Written independently of util/abbreviate.py."""
+    from fractions import Fraction
+    t = text.strip().upper()
+    if t.endswith("B"):
+        t = t[:-1]
+    binary = t.endswith("I")
+    if binary:
+        t = t[:-1]
+    scale = 1
+    if t and t[-1] in "KMGTPE":
+        scale = (1024 if binary else 1000) ** ("KMGTPE".index(t[-1]) + 1)
+        t = t[:-1]
+    value = Fraction(t.strip()) * scale
+    assert value.denominator == 1, text
+    return int(value)
+
+
+def server_from_tahoe_cfg(case, cfg_text, readonly):
+    """The StorageServer a node builds from tahoe.cfg: the real _Client.get_anonymous_storage_server (config lookup,
+    parse_abbreviated_size, StorageServer(...)) run on a minimal stand-in for the node object."""
+    from twisted.application import service
+    from allmydata.client import _Client, _valid_config
+    from allmydata.node import config_from_string
+
+    class NodeStandIn(service.MultiService):
+        STOREDIR = _Client.STOREDIR
+
+        def __init__(self, config, nodeid):
+            service.MultiService.__init__(self)
+            self.config = config
+            self.get_config = config.get_config
+            self.nodeid = nodeid
+            self.stats_provider = None
+
+    text = "[storage]\nenabled = true\nreadonly = %s\nreserved_space = %s\n" % ("true" if readonly else "false", cfg_text)
+    config = config_from_string(case.tmp, "client.port", text, _valid_config=_valid_config())
+    node = NodeStandIn(config, case.nodeid)
+    ss = _Client.get_anonymous_storage_server(node)
+    return ss
+
+
+def _one_case(ck, rng, case, total, root_reserve, reserved, readonly, mode, cfg=None):
     from allmydata.interfaces import NoSpace
+    # storage indexes that share the 2-character prefix directory below shares/ and shares/incoming/
     sis = [S.rand_si(rng) for _ in range(rng.choice([1, 2, 3]))]
+    if len(sis) >= 2 and rng.random() < .6:
+        sis = [sis[0]] + [sis[0][:2] + x[2:] for x in sis[1:]]
+    same_prefix = len(sis) >= 2 and len({S.b32(x)[:2] for x in sis}) == 1
     client_secrets = {si: (S.rand_bytes(rng, 32), S.rand_bytes(rng, 32)) for si in sis}
     opened = {}      # (si, sh) -> W
     final = set()    # (si, sh)
@@ -125,7 +185,24 @@ def _one_case(ck, rng, case, total, root_reserve, reserved, readonly, mode):
     disk = ModalDisk(case.storedir, total, root_reserve, mode)
     S.install_disk(disk)
     case.disk = disk
-    ss = case.ss = S.make_server(case.tmp, nodeid=case.nodeid, reserved_space=reserved, readonly_storage=readonly)
+    if cfg is None:
+        ss = case.ss = S.make_server(case.tmp, nodeid=case.nodeid, reserved_space=reserved, readonly_storage=readonly)
+    else:
+        config["tahoe_cfg_reserved_space"] = cfg
+        try:
+            ss = case.ss = server_from_tahoe_cfg(case, cfg, readonly)
+        except ValueError:
+            ck.skip("tahoe-cfg-size-refused-at-startup")      # no server, nothing accepted: not judged
+            return
+        ck.hit("reserved-space-from-tahoe-cfg")
+        if "." in cfg:
+            ck.hit("reserved-space-from-tahoe-cfg-decimal")
+        ck.mon("configured-reserve-is-documented-value")
+        if ss.reserved_space != reserved:
+            ck.violation("configured-reserved-space-misread",
+                         "[storage]reserved_space = %s means %d bytes (docs/configuration.rst) but the server reserves %d"
+                         % (cfg, reserved, ss.reserved_space), {"config": config})
+            return
     from allmydata.storage.server import FoolscapStorageServer
     fss = FoolscapStorageServer(ss)
     canaries = [S.Canary(), S.Canary()]
@@ -282,7 +359,17 @@ def _one_case(ck, rng, case, total, root_reserve, reserved, readonly, mode):
         if w is None:
             return do_allocate()
         history.append(("close", sis.index(w.si), w.sh, "%d/%d written" % (w.written, w.size)))
-        w.close()
+        others = [x for x in opened.values() if x.si != w.si and S.b32(x.si)[:2] == S.b32(w.si)[:2]]
+        if others:
+            ck.hit("close-while-other-index-in-same-incoming-prefix")
+        try:
+            w.close()
+        except OSError as e:
+            # the upload itself completed if the share reached its final place; the statement then demands that its
+            # reservation is gone -- ledger() right after this judges exactly that
+            if not os.path.exists(case.final_path(w.si, w.sh)):
+                raise
+            ck.observe("close-raised-after-share-was-finalised:" + type(e).__name__)
         release(w)
         final.add((w.si, w.sh))
         ck.hit("released-by-close")
@@ -292,6 +379,8 @@ def _one_case(ck, rng, case, total, root_reserve, reserved, readonly, mode):
         if w is None:
             return do_allocate()
         history.append(("abort", sis.index(w.si), w.sh))
+        if any(x.si != w.si and S.b32(x.si)[:2] == S.b32(w.si)[:2] for x in opened.values()):
+            ck.hit("abort-while-other-index-in-same-incoming-prefix")
         w.abort()
         release(w)
         ck.hit("released-by-abort")
@@ -378,3 +467,7 @@ class _Stop(Exception):
 #     share of a request is aborted when the connection is lost        CAUGHT (disconnect-leaves-upload-open)
 #     -- was MISSED while C28 only used the direct API; the Foolscap front end + connection loss are now history steps.
 # 14. immutable.py BucketWriter.disconnected: does nothing              CAUGHT (disconnect-leaves-upload-open)
+# 15. immutable.py BucketWriter.close: rmdir of the shared incoming prefix directory raises after the share was
+#     finalised (seeded C28-7)                        CAUGHT (reservation-ledger; storage indexes sharing the prefix)
+# 16. util/abbreviate.py parse_abbreviated_size drops the decimal part / reads KiB as 1000 (seeded C28-8)
+#                                                     CAUGHT (configured-reserved-space-misread; tahoe.cfg leg)
